@@ -29,6 +29,52 @@ CHECK_DEADLOCK FALSE
     _collect(rep, json.load(open(op)), "repr.layout", clauses)
 
 
+STATE_CONSTS = """CONSTANTS
+  Limits = {limits}
+  Default = 12
+  Vecs = {{"v10", "v13"}}
+  Tabs = {{"t13", "t5"}}
+  Rows <- RowsDef
+  PeekLimit = 200
+  Deviation = "{dev}"
+  Depth = {depth}
+"""
+STATE_PROPS = """INVARIANT TypeOK
+INVARIANT GlobalIsAsked
+INVARIANT TableIsAsked
+INVARIANT ShownIsLayout
+PROPERTY PrintingChangesNothing
+PROPERTY OverridesAreLocal
+CHECK_DEADLOCK FALSE
+"""
+
+
+def state(rep, tier, clauses=C20_CL):
+    """SerifReprState: the preview limit as state (global setting, per-table override, summaries).  TLC checks the
+    design (which limit is in force after every history; printing changes no setting; three deviations must be
+    reported), then every history of `depth` steps is replayed into the library and every printing compared."""
+    limits = "{2, 5, 12, 20}"
+    r = engine.run_tlc("MC_ReprState", "SPECIFICATION MCSpec\n" + STATE_CONSTS.format(limits=limits, dev="none", depth=0) + STATE_PROPS, timeout=600)
+    rep.add_mc(r, "MC_ReprState: limit in force = limit asked for, printing changes no setting (all settings reachable)")
+    for dev, inv in (("ResetKeepsCurrent", {"GlobalIsAsked", "ShownIsLayout"}), ("PeekLeaks", {"GlobalIsAsked", "PrintingChangesNothing", "ShownIsLayout"}),
+                     ("OverrideSticks", {"TableIsAsked", "ShownIsLayout"})):
+        d = engine.run_tlc("MC_ReprState", "SPECIFICATION MCSpec\n" + STATE_CONSTS.format(limits=limits, dev=dev, depth=0) + STATE_PROPS,
+                           timeout=600, expect_violation=True)
+        rep.add_dev("ReprState." + dev, d, inv)
+    depth = 3 if tier == "quick" else 4
+    g = engine.run_tlc("MC_ReprState", "SPECIFICATION GSpec\n" + STATE_CONSTS.format(limits=limits, dev="none", depth=depth) +
+                       "INVARIANT Emit\nINVARIANT ShownIsLayout\nCHECK_DEADLOCK FALSE\n", timeout=1800)
+    rep.add_mc(g, f"MC_ReprState (Gen): every history of {depth} settings / printings")
+    cases = [c for _, c in g.prints]
+    sc = engine.scratch()
+    cp, op = os.path.join(sc, "repr_state_cases.json"), os.path.join(sc, "repr_state_out.json")
+    json.dump(cases, open(cp, "w"))
+    if cases:
+        rep.sample({"suite": "repr.state", "case": cases[len(cases) // 2]})
+    engine.run_driver("drv_repr.py", ["state", cp, op], timeout=3600)
+    _collect(rep, json.load(open(op)), "repr.state", clauses)
+
+
 def values(rep, clauses=C20_CL):
     sc = engine.scratch()
     op = os.path.join(sc, "repr_values_out.json")
